@@ -10,10 +10,10 @@ RULE = ('programs x sequences of K<=2 (thorough: sampled K=3,4) requests from {p
         'completed by a final play and the owed resumes; distinct by (program, plan); non-trivial when a pause or play reached a live process')
 ASSUMPTIONS = ['programs depend only on their arguments (deterministic)', 'expected trace comes from an independent interpreter of the program text, '
                'cross-checked against the uninterrupted run of the real code']
-REQUIRED = ['step_entries', 'pause_live', 'play_while_paused', 'pause_phase/running-step', 'pause_phase/waiting-step', 'pause_phase/between-steps-or-unstarted',
+REQUIRED = ['calls_on_terminated', 'step_entries', 'pause_live', 'play_while_paused', 'pause_phase/running-step', 'pause_phase/waiting-step', 'pause_phase/between-steps-or-unstarted',
             'trace_compared']
 ALPHABET = [['pause', 'p'], ['pause', None], ['play'], ['resume', ['v']], ['resume', None]]
-BOUNDS = {'quick': 'basic program family, K<=2 exhaustive', 'thorough': '+ 40 random programs, K=3/4 sampled, listener-issued pause/play'}
+BOUNDS = {'quick': 'basic program family, K<=2 exhaustive, K=3 exhaustive over {pause,play}', 'thorough': '+ 40 random programs, K=3/4 sampled, listener-issued pause/play'}
 
 
 def _relevant(plan):
@@ -32,6 +32,7 @@ def gen_cases(tier, seed):
         plist = [[]]
         plist += [p for p in plans.all_placements(n, ALPHABET, 1) if _relevant(p)]
         plist += [p for p in plans.all_placements(n, ALPHABET, 2) if _relevant(p)]
+        plist += list(plans.all_placements(n, [['pause', 'p'], ['play']], 3))
         if tier == 'thorough':
             plist += [p for p in plans.sampled_placements(rng, n, ALPHABET, 3, 1500) if _relevant(p)]
             plist += [p for p in plans.sampled_placements(rng, n, ALPHABET, 4, 800) if _relevant(p)]
@@ -43,12 +44,19 @@ def gen_cases(tier, seed):
         for i, plan in enumerate(plist):
             cases.append({'name': name, 'program': prog, 'plan': plans.uniq(plan, 'q%d' % i), 'drain': True, 'probe': False,
                           'barrage': False, 'listener': True})
+        # pause()/play() never raise -- also not on a process that was killed (while paused, pausing, ...) or otherwise terminated:
+        # one pause + one kill at every pair of slots, then every control call again on the terminated process
+        for p in plans.all_placements(n, [['pause', 'p'], ['kill', 'k'], ['play']], 2):
+            kinds = [e['act'][0] for e in p]
+            if 'kill' in kinds and kinds != ['kill', 'kill']:
+                cases.append({'name': name, 'program': prog, 'plan': plans.uniq(p, 'k'), 'drain': True, 'probe': False,
+                              'barrage': True, 'barrage_skip': ['fail', 'soon_raise', 'cancel_future'], 'listener': True, 'no_trace': True})
     return cases
 
 
 def run_case(case):
     rec = lifecycle.run_case(case)
-    viol = judges.judge_c05(rec)
+    viol = judges.judge_c05(rec, check_trace=not case.get('no_trace'))
     obs = {'step_entries': 0, 'pause_live': 0, 'play_while_paused': 0, 'pause_phase': {}, 'trace_compared': 0, 'pause_returns': {}}
     obs['step_entries'] = sum(1 for e in rec['events'] if e[0] == 'trace' and e[1] == 'enter')
     for a in rec['acts']:
@@ -64,7 +72,9 @@ def run_case(case):
             obs['pause_returns'][r] = obs['pause_returns'].get(r, 0) + 1
         if a['kind'] == 'play' and a['paused_before']:
             obs['play_while_paused'] += 1
-    if programs.is_plain(case['program']) and rec['inconclusive'] is None:
+        if a['kind'] in ('pause', 'play') and not a['live_before']:
+            obs['calls_on_terminated'] = obs.get('calls_on_terminated', 0) + 1
+    if programs.is_plain(case['program']) and rec['inconclusive'] is None and not case.get('no_trace'):
         obs['trace_compared'] = 1
     res = {'viol': viol, 'obs': obs, 'inconclusive': rec['inconclusive'], 'key': [case['name'], case['plan']],
            'nontrivial': obs['pause_live'] + obs['play_while_paused'] > 0}
